@@ -277,7 +277,8 @@ pub fn log(o: &Opts) {
         "derive" => {
             let kps: Vec<u64> = raptorq::verif::SYSTEMATIC_INDICES_AND_PARAMETERS.iter().map(|r| r.0 as u64).collect();
             for i in 0..n {
-                let p: u16 = match i % 5 { 0 => rng.random_range(1..=63), 1 => rng.random_range(64..=2048), 2 => 1024, 3 => rng.random_range(64..=65535), _ => rng.random_range(8..=1500) };
+                // very large packet sizes (N_max up to 1023) are expensive for the oracle: 2% of the cases
+                let p: u16 = match i % 5 { 0 => rng.random_range(1..=63), 1 => rng.random_range(64..=2048), 2 => 1024, 3 => if i % 50 == 3 { rng.random_range(64..=65535) } else { rng.random_range(64..=4096) }, _ => rng.random_range(8..=1500) };
                 let al: u64 = if p >= 64 { 8 } else { 1 };
                 let t = (p as u64) - (p as u64 % al);
                 let nmax = (t / (al * al)).max(1);
